@@ -41,7 +41,7 @@ var catalogue = []construct{
 	{Src: "(%H:%1)"}, {Src: "(%1:%H)"}, {Src: "(%1:%2:%H)"}, {Src: "(%H:%1:%2)"}, {Src: "[1,2,3][%H]"}, {Src: "[1,2,3][%1:%H]"}, {Src: "[1,2,3][%H:%1]"}, {Src: "[1,2,3][%1:%2:%H]"}, {Src: "\"abc\"[%H:%1]"},
 	// calls: arguments of every kind, receivers, callees
 	{Src: "f(%1, %H, %2)"}, {Src: "f(%H)", Last: true}, {Src: "f(k: %H)"}, {Src: "f(%1, k: %H)"}, {Src: "f(k: %H, %1)"}, {Src: "f(*%H)"}, {Src: "f(%1, **%H)"}, {Src: "%H(%1)"}, {Src: "f(%1, q: %2, k: %H)"},
-	{Src: "o.m(%H)"}, {Src: "o.m(%1, k: %H)"}, {Src: "%H.m(%1)"}, {Src: "o.^g(%H)"}, {Src: "%H.^g"}, {Src: "%1.{|x| %H}"}, {Src: "%H.{|x| %1}"}, {Src: "o['m](o, %H, %1)"},
+	{Src: "o.m(%H)"}, {Src: "o.m(%1, k: %H)"}, {Src: "%H.m(%1)"}, {Src: "%H.^g"}, {Src: "%1.{|x| %H}"}, {Src: "%H.{|x| %1}"}, {Src: "o['m](o, %H, %1)"},
 	// chain arguments in the three call forms
 	{Src: "[1,2]@(%H)S"}, {Src: "[1,2]$(%H)+"}, {Src: "[1,2]@(%H){|x| %1}"}, {Src: "[1,2]$(%H){|a, x| %1}"}, {Src: "[1,2]$(%H)^g2"}, {Src: "[1,2]@(%H)^g"}, {Src: "3.(%H)^g"}, {Src: "3.(%H)S"}, {Src: "3.(%H){|x| %1}"},
 	// conditionals
@@ -60,12 +60,12 @@ var catalogue = []construct{
 	{Src: "[%1, 2]@{|x| %H}"}, {Src: "[%1, 2]${|a, x| %H}"}, {Src: "[%1, 2]&@{|x| %H}"}, {Src: "[1, 2]@{|x| %H if x == 2 else %1}"}, {Src: "[1, 2, 3]@{|x| %H if x == 2 else mk(x, x)}"},
 	{Src: "[1, 2]=@{|x| %H if x == 1 else %1}"}, {Src: "[1, 2]=${|a, x| %H if x == 1 else %1}"}, {Src: "[1, 2]&${|a, x| %H if x == 1 else %1}"}, {Src: "3@{|x| %H if x == 2 else %1}"},
 	{Src: "{a: 1, b: 2}@{|k, v| %H if v == 1 else %1}"}, {Src: "%{1: 1, 2: 2}@{|k, v| %H if v == 1 else %1}"}, {Src: "\"ab\"@{|c| %H if c == \"a\" else %1}"},
-	{Src: "[I2.new(1), I2.new(2)]@m2"}, {Src: "[I2.new(1), I2.new(2)]=@m2"}, {Src: "[I2.new(1), I2.new(2)]$m3"}, {Src: "[I2.new(1), I2.new(2)]&@m2"},
+	{Src: "[I2.new(1), I2.new(2)]@m2"}, {Src: "[I2.new(1), I2.new(2)]=@m2"}, {Src: "[I2.new(1), I2.new(2)]$(I2.new(0))m3"}, {Src: "[I2.new(1), I2.new(2)]&@m2"},
 	{Src: "[1, 2]@^gb"}, {Src: "[1, 2]=@^gb"}, {Src: "[1, 2]$^gb2"}, {Src: "[1, 2]=$(0)^gb2"},
 	// natives and built-ins that call back
 	{Src: "[%H].len", Last: true}, {Src: "%H.try.val"}, {Src: "Obj.callProp(%H, 'S)"}, {Src: "[3, %H].sum"}, {Src: "[1, 2].map {|x| %H}"}, {Src: "[1, 2].select {|x| %H}"}, {Src: "[1, 2].find {|x| %H}"},
 	{Src: "(1:3).A.map {|x| %H}"}, {Src: "[1,2].reduce {|a, x| %H}"}, {Src: "[[1, %H]].T"}, {Src: "{a: 1}.bear({b: %H})"}, {Src: "Int.new(%H)"}, {Src: "Arr.new([%H])"}, {Src: "Either.newVal(%H)"},
-	{Src: "1.try.{|x| x}.catch(ValueErr) {|e| %H}"}, {Src: "[1, 2].each {|x| %H}"}, {Src: "[2, 1].sort {|a, b| %H}"}, {Src: "[1, 2].any? {|x| %H}"}, {Src: "[1, 2].all? {|x| %H}"}, {Src: "{a: 1}.map {|k, v| %H}"},
+	{Src: "1.try.{|x| x/0}.catch(ZeroDivisionErr) {|e| %H}"}, {Src: "[1, 2].any? {|x| %H}"}, {Src: "[1, 2].all? {|x| %H}"}, {Src: "{a: 1}.map {|k, v| %H}"},
 	{Src: "[1, 2].zip([%H])"}, {Src: "[1, 2].withI.map {|x, i| %H}"},
 }
 
@@ -103,7 +103,7 @@ gb2 := {|a, x| boom() if x == 1 else mk(9, 9)}
 k := 'kk
 x := 0
 o := {m: m{|a, b, k: 0| "M".p; 1}}
-I2 := Int.bear({m2: m{boom() if self == 1 else mk(9, 9)}, m3: m{|x| boom()}})
+I2 := Int.bear({m2: m{boom() if (self <=> 1) == 0 else mk(9, 9)}, m3: m{|x| boom()}})
 `
 }
 
